@@ -141,8 +141,6 @@ def run_case(case, seed):
                     where = "constant" if (name == "input" and kp in dict(const_sig) and c_ >= dict(dyn_sig).get(kp, 0) * p) else "frame"
                     bad(f"C15/{tag}/{name}/{where}", f"{name} block {kp}: window {w_} channel {c_} holds the wrong {where}")
                     return
-            if g.D != D or tuple(g.is_torus) != flags:
-                bad(f"C15/{tag}/meta", "D / flags lost")
 
     for vi, (dyn_sig, const_sig) in enumerate(VARIANTS):
         orders_d = list(it.permutations(range(len(dyn_sig))))
